@@ -95,6 +95,41 @@ Proof.
   - exact IH.
 Qed.
 
+(* ---------- an invalid name anywhere in the tree: nothing is packaged ---------- *)
+(* some chart of the tree (the root or a dependency at any depth) has a name that is not its
+   own base name *)
+Inductive bad_name_in : chart -> Prop :=
+| BadHere c : name_is_base (dname c) = false -> bad_name_in c
+| BadBelow c d : In d (c_deps c) -> bad_name_in d -> bad_name_in c.
+
+Lemma deps_loop_none (F : chart -> option (list tentry)) l d :
+  In d l -> F d = None -> deps_loop F l = None.
+Proof.
+  induction l as [|x l IH]; intros Hin Hd; [contradiction|]. cbn [deps_loop].
+  destruct Hin as [->|Hin]; [now rewrite Hd|].
+  destruct (F x); auto. fold (deps_loop F l). now rewrite (IH Hin Hd).
+Qed.
+
+Lemma bad_name_not_written md_enc lock_enc json_valid : forall c, bad_name_in c ->
+  forall pre, write_tar_contents md_enc lock_enc json_valid pre c = None.
+Proof.
+  induction 1 as [c Hbad|c d Hin Hd IH]; intros pre; destruct c as [m lk raw vs sch tpl fls deps];
+    cbn [write_tar_contents c_meta c_lock c_raw c_schema c_templates c_files c_deps] in *.
+  - unfold dname in Hbad. cbn [c_meta] in Hbad. now rewrite Hbad.
+  - destruct (name_is_base (m_name m)); auto. cbn [negb]. cbv iota.
+    destruct (match sch with Some s => if json_valid s then _ else None | None => Some [] end); auto.
+    now rewrite (deps_loop_none _ deps d Hin (IH _)).
+Qed.
+
+(* Save validates (and sanitises) the root's metadata only; the dependencies are written as they are *)
+Lemma bad_dependency_not_saved md_enc lock_enc json_valid sanitize is_semver rest_valid c d :
+  In d (c_deps c) -> bad_name_in d ->
+  save md_enc lock_enc json_valid sanitize is_semver rest_valid c = None.
+Proof.
+  intros Hin Hbad. unfold save. destruct (validate sanitize is_semver rest_valid (c_meta c)) as [m|]; auto.
+  apply bad_name_not_written. apply (BadBelow _ d); [destruct c; exact Hin|exact Hbad].
+Qed.
+
 Section Rec.
   Variable md_enc : meta -> string.
   Variable lock_enc : lockv -> string.
